@@ -28,13 +28,19 @@ const N_EMIT: usize = 6;
 fn describe(rec: &TcpRecorder, i: usize) {
     match i {
         0 => rec.describe_counter("c_m".into(), Some(Unit::Bytes), "counter help".into()),
-        _ => rec.describe_histogram("h_m".into(), None, "hist help".into()),
+        _ => {
+            rec.describe_gauge("g_m".into(), Some(Unit::Percent), "gauge help".into());
+            rec.describe_histogram("h_m".into(), None, "hist help".into());
+        }
     }
 }
-fn expected_metadata(i: usize) -> Frame {
+fn expected_metadata(i: usize) -> Vec<Frame> {
     match i {
-        0 => Frame::Metadata { name: "c_m".into(), metric_type: 0, unit: Some("bytes".into()), description: Some("counter help".into()) },
-        _ => Frame::Metadata { name: "h_m".into(), metric_type: 2, unit: None, description: Some("hist help".into()) },
+        0 => vec![Frame::Metadata { name: "c_m".into(), metric_type: 0, unit: Some("bytes".into()), description: Some("counter help".into()) }],
+        _ => vec![
+            Frame::Metadata { name: "g_m".into(), metric_type: 1, unit: Some("percent".into()), description: Some("gauge help".into()) },
+            Frame::Metadata { name: "h_m".into(), metric_type: 2, unit: None, description: Some("hist help".into()) },
+        ],
     }
 }
 /// all six metric operations, with labels
@@ -289,7 +295,7 @@ fn run_history(h: &[Ev], cfg: &Config) -> Outcome {
         }
         let mut got_meta: Vec<String> = frames[..n_meta].iter().map(|f| format!("{:?}", f)).collect();
         got_meta.sort();
-        let mut want_meta: Vec<String> = c.metadata_at_connect.iter().map(|d| format!("{:?}", expected_metadata(*d))).collect();
+        let mut want_meta: Vec<String> = c.metadata_at_connect.iter().flat_map(|d| expected_metadata(*d)).map(|f| format!("{:?}", f)).collect();
         want_meta.sort();
         let metrics: Vec<&Frame> = frames[n_meta..].iter().collect();
         let want: Vec<Frame> = c.expected.iter().map(|(k, s)| expected_metric(*k, *s)).collect();
@@ -635,7 +641,7 @@ fn main() {
     driver::main(CheckDef {
         prop: "C11",
         level: "model_checking",
-        rule: "every well-formed history of at most N events over {connect(i), read(i), close(i), reset(i) (SO_LINGER 0), describe(2 metrics), emit(6 operations incl. labels)} with 2-3 clients, for buffer_size in {Some(1), Some(2), Some(1024), None}, against a fresh real exporter (public TcpBuilder::build) with a quiescence barrier after every event (wake; wait for a fully processed batch; twice), plus for fan-out histories every assignment of at most d deviating answers {Short(1), Short(5), WouldBlock} to the exporter's first write calls (deviation-bounded, default Full); every client's byte stream is decoded by an independent protobuf wire parser: whole frames only, metadata known at connect first, then exactly the emits issued while connected, in order, intact, no duplicates (with a small buffer and held-back writes only older frames may be missing); one scripted real back-pressure history per buffer config; distinct = distinct per-client delivery summaries",
+        rule: "every well-formed history of at most N events over {connect(i), read(i), close(i), reset(i) (SO_LINGER 0), describe(counter | gauge + histogram), emit(6 operations incl. labels)} with 2-3 clients, for buffer_size in {Some(1), Some(2), Some(1024), None}, against a fresh real exporter (public TcpBuilder::build) with a quiescence barrier after every event (wake; wait for a fully processed batch; twice), plus for fan-out histories every assignment of at most d deviating answers {Short(1), Short(5), WouldBlock} to the exporter's first write calls (deviation-bounded, default Full); every client's byte stream is decoded by an independent protobuf wire parser: whole frames only, metadata known at connect first, then exactly the emits issued while connected, in order, intact, no duplicates (with a small buffer and held-back writes only older frames may be missing); one scripted real back-pressure history per buffer config; distinct = distinct per-client delivery summaries",
         assumptions: &["kernel / mio readiness order inside one epoll batch is not enumerated: one harness event at a time, exporter run to quiescence in between", "Interrupted is not in the write-answer alphabet (a non-blocking socket write cannot return EINTR on Linux)", "every history ends with one extra emit so that frames held back by an injected short or would-block answer are driven out"],
         parts,
         run,
